@@ -317,6 +317,7 @@ func (e *env) e2eRaw(p e2eParams) {
 		return ids[len(ids)-1]
 	}
 	n := 0
+	tFirstEmit := time.Now() // the packet the client will name as its offset is not older than this
 	for ; n < p.K && n < len(p.Kinds); n++ {
 		if emit(w, ss, p.Kinds[n], n, p.Binary) {
 			addressed = append(addressed, lastLog())
@@ -362,6 +363,9 @@ func (e *env) e2eRaw(p e2eParams) {
 	amu.Lock()
 	armed = true
 	amu.Unlock()
+	// well inside the window? (otherwise only the adapter's own verdict, which the specification checks against
+	// the window, binds what the socket and the client must report)
+	comfortable := time.Since(tFirstEmit) < W/3
 	c2.Send(fmt.Sprintf(`40{"pid":"%s","offset":"%s"}`, usePid, offset))
 	if p.GateMw {
 		// the restored socket sits in a middleware: not yet reachable, already restored
@@ -400,7 +404,23 @@ func (e *env) e2eRaw(p e2eParams) {
 	}
 	expect := p.Delay == "short" && p.Offset == "valid" && p.PID == "valid" && offset != ""
 	if recovered {
-		c2.WaitFor(2*time.Second, func(ps []string) bool { ids, _, _ := offsetsOf(ps); return len(got1)+len(ids) >= len(addressed) })
+		// everything addressed to the client has arrived (set-wise: what came before the disconnect counts too)
+		c2.WaitFor(4*time.Second, func(ps []string) bool {
+			ids, _, _ := offsetsOf(ps)
+			have := map[string]bool{}
+			for _, x := range got1 {
+				have[x] = true
+			}
+			for _, x := range ids {
+				have[x] = true
+			}
+			for _, a := range addressed {
+				if !have[a] {
+					return false
+				}
+			}
+			return true
+		})
 	}
 	time.Sleep(30 * time.Millisecond)
 	got2, _, bin2 := offsetsOf(c2.Packets())
@@ -414,7 +434,7 @@ func (e *env) e2eRaw(p e2eParams) {
 	}
 	vtrace.Emit("e2e", "class", cfgName, "client", "raw", "recovered", recovered, "expectRecovered", expect, "clientRecovered", recovered,
 		"sameSid", sid2 == sid && pid2 == pid, "roomsOk", roomsOk, "addressed", addressed, "received", received,
-		"intact", bin1 && bin2, "binary", p.Binary, "strict", true)
+		"intact", bin1 && bin2, "binary", p.Binary, "strict", true, "comfortable", comfortable)
 	e.end()
 	e.res.Case(fmt.Sprint(p), true)
 	if e.scen%15 == 2 {
@@ -495,7 +515,7 @@ func (e *env) goClient() {
 		rec := ss2 != nil && ss2.Recovered()
 		vtrace.Emit("e2e", "class", "e2e-goclient", "client", "go", "recovered", rec, "expectRecovered", round == 0, "clientRecovered", c.Recovered(),
 			"sameSid", c.ID() == firstID, "roomsOk", !rec || ss2.Rooms().Contains("r1"), "addressed", []string{}, "received", []string{},
-			"intact", true, "binary", false, "round", round, "strict", false)
+			"intact", true, "binary", false, "round", round, "strict", false, "comfortable", false)
 	}
 	e.end()
 	e.res.Case("goclient", true)
